@@ -24,7 +24,8 @@ RULE = (
 )
 ASSUMPTIONS = [
     "group maps are acyclic (the property's precondition)",
-    "member names are drawn from [A-Za-z0-9_./-] so str.format sees no stray braces",
+    "member names are drawn from [A-Za-z0-9_./-] so str.format sees no stray braces; ordinary (non-group) "
+    "path arguments do contain braces (1 in 10) and must come back unchanged",
     "clock controlled with freezegun (all of zorg's today()/now() go through datetime)",
 ]
 
@@ -33,6 +34,10 @@ _DAYS = [
     "2024-01-01", "2024-01-03", "2024-01-06", "2024-03-01", "2024-03-02", "2023-03-01",
     "2024-12-31", "2025-01-05", "2000-01-03", "2024-07-15", "2024-02-29", "2024-11-03",
 ]
+
+
+_BRACED = ["tmpl/{{name}}.zo", "{yyyymmdd[0]}.zo", "drafts/{wip}.zo", "set_{a,b}.zo", "notes/{}.zo", "odd}.zo",
+           "{days[1]:%Y}/log.zo", "{0}.zo", "a{", "{days[6].year}"]
 
 
 @st.composite
@@ -80,9 +85,12 @@ def _case(draw):
             k = draw(st.integers(0, 9))
             if k < 6:
                 out.append({"ref": draw(st.sampled_from(names[: max(1, (len(names) + 1) // 2)] if k < 4 else names))})
-            else:
+            elif k < 9:
                 out.append({"path": draw(_NAME) + draw(st.sampled_from(["", ".zo", "/p.zo"])),
                             "as_path": draw(st.booleans())})
+            else:
+                # ordinary paths are left untouched even when they look like member patterns
+                out.append({"path": draw(st.sampled_from(_BRACED)), "as_path": draw(st.booleans()), "braced": True})
         return out
 
     return {
@@ -245,7 +253,7 @@ def check(case, rec: Rec) -> None:
             raise Violation("concat-law", f"expand(xs+ys)={gxy} != {gx}+{gy}")
         if gx2 != gx:
             raise Violation("unused-group", f"adding an unused group changed {gx} -> {gx2}")
-        if case.get("cli") and case["xs"] and "ref" in case["xs"][0]:
+        if case.get("cli") and case["xs"] and "ref" in case["xs"][0] and not any(a.get("braced") for a in case["xs"]):
             _check_cli(case, rec, gmap, exp_x)
 
     if stats["depth"] >= 2:
@@ -256,8 +264,10 @@ def check(case, rec: Rec) -> None:
         rec.label("shared-subgroup")
     if stats["datepat"]:
         rec.label("date-pattern-i>=1")
-    if case.get("cli") and case["xs"] and "ref" in case["xs"][0]:
+    if case.get("cli") and case["xs"] and "ref" in case["xs"][0] and not any(a.get("braced") for a in case["xs"]):
         rec.label("cli-route")
+    if any(a.get("braced") for a in case["xs"] + case["ys"]):
+        rec.label("ordinary-path-with-braces")
     rec.nontrivial = stats["depth"] >= 2 or stats["shared"] or stats["datepat"]
 
 
